@@ -1,16 +1,19 @@
 #!/bin/bash
 # tools/eval_patch.sh [-R] <patch> <check ids...>   -> one line per check: id rc nviol firstkey
-# Applies the patch to /repo (reversed with -R), runs the quick checks, ALWAYS restores /repo.
+# Applies the patch (reversed with -R) to the repository under test, runs the quick checks without touching the
+# committed evidence, ALWAYS restores the tree.  EVAL_REPO selects a scratch worktree instead of /repo (used while
+# background sweeps are reading /repo).
 rev=""
 if [ "$1" = "-R" ]; then rev="-R"; shift; fi
-patch="$1"; shift
-cd /repo || exit 3
+patch="$(realpath "$1")"; shift
+R="${EVAL_REPO:-/repo}"
+cd "$R" || exit 3
 if ! git apply $rev --check "$patch" 2>/dev/null; then echo "PATCH-DOES-NOT-APPLY $patch"; exit 3; fi
 git apply $rev "$patch"
-trap 'cd /repo && git checkout -- . ' EXIT
+trap 'cd "$R" && git checkout -- . ' EXIT
 cd /verif
 for id in "$@"; do
-  out=$(VERIF_NO_EVIDENCE=1 ./check "$id" "${TIER:-quick}" 2>&1); rc=$?
+  out=$(VERIF_REPO="$R" VERIF_NO_EVIDENCE=1 ./check "$id" "${TIER:-quick}" 2>&1); rc=$?
   n=$(echo "$out" | grep -c '^VIOLATION')
   first=$(echo "$out" | grep -A1 '^VIOLATION' | sed -n 2p | cut -c1-160)
   echo "$id rc=$rc violations=$n $first"
